@@ -2,6 +2,8 @@ package c04
 
 import (
 	"bytes"
+	"os"
+	"strings"
 	"crypto/ecdsa"
 	"crypto/elliptic"
 	"fmt"
@@ -378,7 +380,61 @@ func scenarios() []*scenario {
 			},
 		})
 	}
+	// CGGMP21 signing on the dealt 2-of-3 key, auxiliary information (Paillier-Blum and ring-Pedersen
+	// keys) from prime fixtures, the full holder set {1,2,3} as quorum so that two honest parties judge
+	// the third. Expensive (several seconds per run). NOT YET PART OF THE CHECK: the free-list of this
+	// protocol (which leaves a sender may legitimately choose afresh) has to be established with the
+	// enumerated survey on the unchanged tree first (C04_SURVEY=1 C04_SCENARIOS=cggmp21); until that
+	// triage is complete the scenario is only built with C04_CGGMP21=1 (development) so that an
+	// incomplete free-list can never raise an alarm in a registered command.
+	if cggmpEnabled() {
+		out = append(out, cggmp21Scenario(es, shards, ids))
+	}
 	return out
+}
+
+func cggmpEnabled() bool { return os.Getenv("C04_CGGMP21") != "" }
+
+func cggmp21Scenario(es proto.ECDSASigner, baseShards map[proto.ID]any, q []proto.ID) *scenario {
+	shardsC, err := es.CGGMP21Shards(baseShards)
+	if err != nil {
+		panic(err)
+	}
+	msg := []byte("c04 message for cggmp21")
+	return &scenario{
+		name: "cggmp21", parties: q, idle: 60 * time.Second,
+		runners: func(ctxSeed uint64, seeds map[proto.ID]uint64) (map[proto.ID]network.Runner[any], error) {
+			ctxs, err := proto.Contexts(q, ctxSeed, "cggmp21")
+			if err != nil {
+				return nil, err
+			}
+			rs := map[proto.ID]network.Runner[any]{}
+			for _, id := range q {
+				r, err := es.CGGMP21Runner(ctxs[id], shardsC[id], msg, proto.PartyPRNG(seeds[id], "cggmp21", id))
+				if err != nil {
+					return nil, err
+				}
+				rs[id] = r
+			}
+			return rs, nil
+		},
+		check: func(outs map[proto.ID]any) error {
+			if len(outs) < len(q) {
+				return nil // a partial signature is missing: nothing can be aggregated
+			}
+			// every party's cosigning aggregator (the stateless one is documented as "for already
+			// validated partial signatures" and is part of CGGMP21Finish on honest inputs only;
+			// here all partial signatures come from parties that completed, so it applies too)
+			sig, err := es.CGGMP21Finish(outs)
+			if err != nil {
+				if strings.Contains(err.Error(), "AGGREGATORS-DISAGREE") {
+					return fmt.Errorf("aggregators released different signatures: %v", err)
+				}
+				return errAggregatorRejected
+			}
+			return verifyECDSA(es, shardsC[q[0]], msg, sig)
+		},
+	}
 }
 
 // checkShards: all given shards agree on the public key (and on wantPK if given), and each
